@@ -253,7 +253,7 @@ RaObs ==
    acc |-> gw.accp, ra |-> raSeen, repRa |-> repRa,
    reqs |-> {}, acks |-> {}, nacks |-> {}, anss |-> {},
    repValid |-> {}, repResp |-> {}, repDb |-> {}, repUnreach |-> {}, errs |-> {},
-   uris |-> {}, vers |-> {3}, done |-> IF stage = "exit20" THEN "exit20" ELSE "ok"]
+   uris |-> {}, vers |-> {3}, done |-> IF stage = "exit20" THEN "stopped" ELSE "ok"]
 
 (* ------------------------------------------------------------------ specification *)
 Init == IF Mode = "ra" THEN RaInit /\ SweepIdle ELSE SweepInit /\ RaIdle
